@@ -227,3 +227,111 @@ Proof.
   unfold extra_releases. intros sites n. destruct (filter (fun s => snd s) sites) as [| x [| y l]]; try discriminate.
   intro H; inversion H; auto.
 Qed.
+
+(* ---- each line is sent at most once (instances that follow the program of instance.Run) ---- *)
+Section Once.
+Variable A : Type.
+Variable input : list A.
+Hypothesis Hnd : NoDup input.
+
+Record OI (ph : nat -> nat) (v : vstate A) : Prop := mkOI {
+  oi_vi : VI A input v;
+  oi_idle : forall i, ph i = 0 <-> vs_held v i = None;
+  oi_fresh : forall i a, ph i = 1 -> vs_held v i = Some a -> ~ In a (shots_of (vs_out v));
+  oi_inj : forall i j a, vs_held v i = Some a -> vs_held v j = Some a -> i = j;
+  oi_nodup : NoDup (shots_of (vs_out v)) }.
+
+Lemma nodup_app_l : forall (l1 l2 : list A), NoDup (l1 ++ l2) -> NoDup l1 /\ (forall a, In a l1 -> ~ In a l2).
+Proof.
+  induction l1 as [| x l1 IH]; simpl; intros l2 H.
+  - split; [constructor | tauto].
+  - inversion H; subst. destruct (IH _ H3) as [N1 N2]. split.
+    + constructor; auto. intro Hin. apply H2. apply in_or_app. auto.
+    + intros a [<- | Ha]; auto. intro Hin. apply H2. apply in_or_app. auto.
+Qed.
+
+Lemma acq_nodup : forall v, VI A input v -> NoDup (vs_acq v) /\ (forall a, In a (vs_acq v) -> ~ In a (vs_queue v)).
+Proof.
+  intros v [Ho _ _]. rewrite <- Ho in Hnd. destruct (nodup_app_l _ _ Hnd) as [N1 N2]. split; auto.
+  intros a Ha Hq. apply (N2 _ Ha). apply in_or_app. auto.
+Qed.
+
+Lemma shots_snoc_shot : forall (o : list (shot A)) a, shots_of (o ++ [Shot a]) = shots_of o ++ [a].
+Proof. intros. rewrite shots_of_app. reflexivity. Qed.
+Lemma shots_snoc_disc : forall (o : list (shot A)), shots_of (o ++ [Discarded]) = shots_of o.
+Proof. intros. rewrite shots_of_app. simpl. apply app_nil_r. Qed.
+
+Lemma once_step : forall ph v e ph' v', OI ph v -> phase_step ph e = Some ph' -> vstep v e = Some v' -> OI ph' v'.
+Proof.
+  intros ph v e ph' v' [Hvi Hidle Hfresh Hinj Hnds] Hp Hs.
+  assert (Hvi' : VI A input v') by (eapply vstep_inv; eauto).
+  destruct (acq_nodup v Hvi) as [Hna Haq].
+  destruct e as [k | i | i | i | i]; simpl in Hp, Hs.
+  - inversion Hp; subst ph'; clear Hp. destruct (vs_rest v); inversion Hs; subst v'; clear Hs.
+    constructor; simpl; auto.
+  - destruct (Nat.eqb (ph i) 0) eqn:Ep; inversion Hp; subst ph'; clear Hp.
+    destruct (vs_held v i) eqn:Ei; try discriminate. destruct (vs_queue v) as [| a q] eqn:Eq; inversion Hs; subst v'; clear Hs.
+    assert (Hnew : ~ In a (vs_acq v)). { intro Hin. apply (Haq _ Hin). simpl. auto. }
+    destruct Hvi as [Ho Hheld Hout].
+    constructor; simpl; auto.
+    + intro j. unfold upd. destruct (Nat.eqb j i) eqn:Eji.
+      * split; intro; discriminate.
+      * apply Hidle.
+    + intros j a0. unfold upd. destruct (Nat.eqb j i) eqn:Eji.
+      * intros _ E. injection E as <-. intro Hin. apply Hnew. auto.
+      * apply Hfresh.
+    + intros j j' a0. unfold upd. destruct (Nat.eqb j i) eqn:Eji; destruct (Nat.eqb j' i) eqn:Eji'.
+      * apply Nat.eqb_eq in Eji, Eji'. congruence.
+      * intros E Ej'. injection E as <-. exfalso. apply Hnew. eauto.
+      * intros Ej E. injection E as <-. exfalso. apply Hnew. eauto.
+      * apply Hinj.
+  - destruct (Nat.eqb (ph i) 1) eqn:Ep; inversion Hp; subst ph'; clear Hp. apply Nat.eqb_eq in Ep.
+    destruct (vs_held v i) as [a |] eqn:Ei; inversion Hs; subst v'; clear Hs.
+    constructor; simpl; auto.
+    + intro j. destruct (Nat.eqb j i) eqn:Eji.
+      * apply Nat.eqb_eq in Eji. subst j. split; intro; try discriminate. congruence.
+      * apply Hidle.
+    + intros j a0. destruct (Nat.eqb j i) eqn:Eji; try discriminate.
+      intros Ej Hj. rewrite shots_snoc_shot. intro Hin. apply in_app_or in Hin. destruct Hin as [Hin | [<- | []]].
+      * eapply Hfresh; eauto.
+      * apply Nat.eqb_neq in Eji. apply Eji. eapply Hinj; eauto.
+    + rewrite shots_snoc_shot.
+      assert (P : forall l (x : A), NoDup l -> ~ In x l -> NoDup (l ++ [x])).
+      { induction l as [| y l IHl]; simpl; intros x Hn Hx.
+        - constructor; [simpl; tauto | constructor].
+        - inversion Hn; subst. constructor.
+          + intro Hin. apply in_app_or in Hin. simpl in Hin. destruct Hin as [Hin | [E | []]]; [tauto | subst; apply Hx; auto].
+          + apply IHl; auto. }
+      apply P; auto. eapply Hfresh; eauto.
+  - destruct (Nat.eqb (ph i) 1) eqn:Ep; inversion Hp; subst ph'; clear Hp. apply Nat.eqb_eq in Ep.
+    destruct (vs_held v i) as [a |] eqn:Ei; inversion Hs; subst v'; clear Hs.
+    constructor; simpl; auto.
+    + intro j. destruct (Nat.eqb j i) eqn:Eji.
+      * apply Nat.eqb_eq in Eji. subst j. split; intro; try discriminate. congruence.
+      * apply Hidle.
+    + intros j a0. destruct (Nat.eqb j i) eqn:Eji; try discriminate.
+      rewrite shots_snoc_disc. apply Hfresh.
+    + rewrite shots_snoc_disc. auto.
+  - destruct (Nat.eqb (ph i) 2) eqn:Ep; inversion Hp; subst ph'; clear Hp.
+    destruct (vs_held v i) as [a |] eqn:Ei; inversion Hs; subst v'; clear Hs.
+    constructor; simpl; auto.
+    + intro j. unfold upd. destruct (Nat.eqb j i) eqn:Eji.
+      * tauto.
+      * apply Hidle.
+    + intros j a0. unfold upd. destruct (Nat.eqb j i) eqn:Eji; try discriminate. apply Hfresh.
+    + intros j j' a0. unfold upd. destruct (Nat.eqb j i) eqn:Eji; destruct (Nat.eqb j' i) eqn:Eji'; try discriminate. apply Hinj.
+Qed.
+
+Theorem sent_at_most_once : forall evs v, disciplined evs = true -> vrun (vinit input) evs = Some v ->
+  NoDup (shots_of (vs_out v)).
+Proof.
+  intros evs v Hd Hr.
+  assert (G : forall evs ph v0, OI ph v0 -> disciplined_from ph evs = true -> vrun v0 evs = Some v -> NoDup (shots_of (vs_out v))).
+  { induction evs0 as [| e evs0 IH]; simpl; intros ph v0 H0 Hdisc Hrun.
+    - injection Hrun as Ev. rewrite <- Ev. apply oi_nodup with (ph := ph). exact H0.
+    - destruct (phase_step ph e) eqn:Ep; try discriminate. destruct (vstep v0 e) eqn:Es; try discriminate.
+      eapply IH; [eapply once_step; [exact H0 | exact Ep | exact Es] | exact Hdisc | exact Hrun]. }
+  eapply G; [| exact Hd | exact Hr].
+  constructor; simpl; try tauto; try discriminate; try constructor; simpl; auto; try tauto; try discriminate.
+Qed.
+End Once.
